@@ -141,7 +141,7 @@ def oracles(q, a):
                 out.append(("C02", "rs-finish", "RS: %d distinct symbols of k=%d, after finish complete=%d" % (len(set(recv)), k, comp)))
             if not want and st != 1:
                 out.append(("C02", "rs-finish-status", "RS: fewer than k symbols but finish returned %d" % st))
-        elif a.H is not None:
+        elif a.H is not None and n <= 4000:
             known = {ldpc.col_of(k, r, e) for e in recv}
             if a.LN == "1":
                 known.add(r - 1)
